@@ -432,19 +432,18 @@ func containsAny(s string, subs ...string) bool {
 
 // checkFrame: the heap components that differ from the entry state at exit must be covered by the contract's
 // modifies clause (objects allocated by the function itself are exempt).
-func (r *FnRun) checkFrame(fr *Frame, out *State, retGuard Term) {
+type frameAllow struct {
+	whole bool
+	idx   []Term
+}
+
+// frameInfo evaluates the contract's modifies clause once (in the entry state).
+func (r *FnRun) frameInfo(fr *Frame) (allowed map[string]*frameAllow, allowAll bool) {
+	if r.frameAllowed != nil {
+		return r.frameAllowed, r.frameAll
+	}
 	c := r.Contract
-	if c == nil || c.ModAll || r.inInit {
-		return
-	}
-	entry := fr.entry
-	// allowed (component -> indices; nil slice = whole component)
-	type allow struct {
-		whole bool
-		idx   []Term
-	}
-	allowed := map[string]*allow{}
-	allowAll := false
+	allowed = map[string]*frameAllow{}
 	add := func(comp string, idx Term, whole bool) {
 		if comp == "*" {
 			allowAll = true
@@ -452,7 +451,7 @@ func (r *FnRun) checkFrame(fr *Frame, out *State, retGuard Term) {
 		}
 		a := allowed[comp]
 		if a == nil {
-			a = &allow{}
+			a = &frameAllow{}
 			allowed[comp] = a
 		}
 		if whole {
@@ -461,14 +460,15 @@ func (r *FnRun) checkFrame(fr *Frame, out *State, retGuard Term) {
 			a.idx = append(a.idx, idx)
 		}
 	}
+	entry := fr.entry
 	ctx := fr.ctxHere()
 	ctx.st = entry
-	saved := fr.st
+	saved, savedCur := fr.st, fr.cur
 	fr.st = entry
 	for _, m := range c.Modifies {
 		r.modTargets(fr, ctx, m, add)
 	}
-	fr.st = saved
+	fr.st, fr.cur = saved, savedCur
 	if c.HavocExt {
 		for _, n := range r.Heap.Names() {
 			if strings.HasPrefix(n, "F.") && !fr.moduleComp(n) {
@@ -476,6 +476,51 @@ func (r *FnRun) checkFrame(fr *Frame, out *State, retGuard Term) {
 			}
 		}
 	}
+	r.frameAllowed, r.frameAll = allowed, allowAll
+	return
+}
+
+// frameFormula: component name holds, in version ft, the entry values everywhere outside the modifies clause
+// (objects allocated since entry are exempt). ok=false when the whole component may change.
+func (r *FnRun) frameFormula(fr *Frame, name string, ft Term) (Term, bool) {
+	allowed, allowAll := r.frameInfo(fr)
+	if allowAll {
+		return True, false
+	}
+	a := allowed[name]
+	if a != nil && a.whole {
+		return True, false
+	}
+	sort := r.Heap.sorts[name]
+	et := r.Heap.Get(fr.entry, name, sort)
+	if ft.S == et.S {
+		return True, true
+	}
+	if !strings.HasPrefix(string(sort), "(Array Int ") {
+		return Eq(ft, et), true
+	}
+	i := fmt.Sprintf("fi?%d", r.Sc.n)
+	r.Sc.n++
+	var ds []string
+	ds = append(ds, fmt.Sprintf("(> %s %s)", i, fr.entry.top.S), fmt.Sprintf("(<= %s 0)", i))
+	if a != nil {
+		for _, ix := range a.idx {
+			ds = append(ds, fmt.Sprintf("(= %s %s)", i, ix.S))
+		}
+	}
+	ds = append(ds, fmt.Sprintf("(= (select %s %s) (select %s %s))", ft.S, i, et.S, i))
+	return T(fmt.Sprintf("(forall ((%s Int)) (! (or %s) :pattern ((select %s %s))))", i, strings.Join(ds, " "), ft.S, i), SBool), true
+}
+
+// checkFrame: the heap components that differ from the entry state at exit must be covered by the contract's
+// modifies clause (objects allocated by the function itself are exempt).
+func (r *FnRun) checkFrame(fr *Frame, out *State, retGuard Term) {
+	c := r.Contract
+	if c == nil || c.ModAll || r.inInit {
+		return
+	}
+	entry := fr.entry
+	_, allowAll := r.frameInfo(fr)
 	if allowAll {
 		return
 	}
@@ -483,36 +528,12 @@ func (r *FnRun) checkFrame(fr *Frame, out *State, retGuard Term) {
 		r.addObl("frame", "calls-uncontracted-code", False, "the function reaches code without a contract (whole heap havocked) but its contract has no 'modifies *'", nil, fr.Fn.Pos())
 		return
 	}
-	top0 := entry.top
 	for _, name := range sortedKeys(out.heap) {
-		ft := out.heap[name]
-		sort := r.Heap.sorts[name]
-		et := r.Heap.Get(entry, name, sort)
-		if ft.S == et.S {
+		f, ok := r.frameFormula(fr, name, out.heap[name])
+		if !ok || f.S == "true" {
 			continue
 		}
-		a := allowed[name]
-		if a != nil && a.whole {
-			continue
-		}
-		var goal Term
-		if !strings.HasPrefix(string(sort), "(Array Int ") {
-			// package-level variable
-			goal = Implies(retGuard, Eq(ft, et))
-		} else {
-			i := fmt.Sprintf("fi?%d", r.Sc.n)
-			r.Sc.n++
-			var ds []string
-			ds = append(ds, fmt.Sprintf("(> %s %s)", i, top0.S), fmt.Sprintf("(<= %s 0)", i))
-			if a != nil {
-				for _, ix := range a.idx {
-					ds = append(ds, fmt.Sprintf("(= %s %s)", i, ix.S))
-				}
-			}
-			ds = append(ds, fmt.Sprintf("(= (select %s %s) (select %s %s))", ft.S, i, et.S, i))
-			goal = Implies(retGuard, T(fmt.Sprintf("(forall ((%s Int)) (or %s))", i, strings.Join(ds, " ")), SBool))
-		}
-		r.addObl("frame", name, goal, "only what 'modifies' lists may differ from the entry state: "+name, nil, fr.Fn.Pos())
+		r.addObl("frame", name, Implies(retGuard, f), "only what 'modifies' lists may differ from the entry state: "+name, nil, fr.Fn.Pos())
 	}
 }
 
